@@ -254,7 +254,10 @@ def _verdict(ex, case):
             # the statement only promises that created/modified objects reach the peer: a walk cannot report deletions
             def tolerated(pth):
                 va, vb = a.get(pth), b.get(pth)
-                return (va is None or vb is None) and any(_related(pth, r) for r in ex.user_removed)
+                # (the stale object may meanwhile carry the engine's '.conflicted' decoration: a later object claimed its name)
+                import re
+                bare = re.sub(r"\.conflicted\d*", "", pth)
+                return (va is None or vb is None) and any(_related(pth, r) or _related(bare, r) for r in ex.user_removed)
             if all(tolerated(p) for p in paths):
                 lv = loss_violation(ex)
                 return lv if lv else (None, "lostcursor-stale-leftover")
